@@ -1208,7 +1208,7 @@ impl<'a> AuditGraph<'a> {
             for (_, import_index, audit_index, entry) in all_wildcard_audits.clone() {
                 if entry.user_id == publisher.user_id
                     && *entry.start <= publisher.when
-                    && publisher.when < *entry.end
+                    && publisher.when <= *entry.end
                 {
                     let from_ver = None;
                     let to_ver = Some(&publisher.version);
@@ -1239,7 +1239,7 @@ impl<'a> AuditGraph<'a> {
             for entry in trusteds {
                 if entry.user_id == publisher.user_id
                     && *entry.start <= publisher.when
-                    && publisher.when < *entry.end
+                    && publisher.when <= *entry.end
                 {
                     let from_ver = None;
                     let to_ver = Some(&publisher.version);
